@@ -311,3 +311,52 @@ def t_cost_table(t):
 
 
 KINDS.update({"improves_table": t_improves_table, "cost_table": t_cost_table})
+
+
+# ---------------------------------------------------------------- C14: splitting and rebuilding
+def t_split(t):
+    from sfs_generator.asm_bytecode import AsmBytecode
+    from solution_generation.optimize_from_sub_blocks import rebuild_optimized_asm_block
+    p = params_for(t["opts"])
+    r = {"text": t["text"], "opts": t["opts"], "blocks": []}
+    try:
+        bs = impl.parse_block(t["text"])
+    except Exception as ex:
+        r["parse_exception"] = "%s: %s" % (type(ex).__name__, ex)
+        return r
+    for b in bs:
+        e = {"plain": [i.to_plain() for i in b.instructions], "optimizable": b.instructions_to_optimize_plain(),
+             "name": b.block_name}
+        if not e["optimizable"]:
+            continue
+        try:
+            with impl.quiet():
+                d, subs = impl.gasol_asm.compute_original_sfs_with_simplifications(b, p)
+            e["subs"] = subs
+            specs = d["syrup_contract"]
+            e["keys"] = list(specs.keys())
+            e["spec_shape"] = {k: [len(v["src_ws"]), len(v["tgt_ws"]), v["original_instrs"]] for k, v in specs.items()}
+            with impl.quiet():
+                nb = rebuild_optimized_asm_block(b, subs, {})
+            e["rebuild_none"] = [i.to_plain() for i in nb.instructions]
+            e["rebuild_none_same_objects"] = bool(nb.instructions == b.instructions)
+            e["rebuild_one"] = []
+            marker = [AsmBytecode(-1, -1, -1, "PUSH", "dead"), AsmBytecode(-1, -1, -1, "POP", None)]
+            for k in range(len(subs)):
+                with impl.quiet():
+                    nb = rebuild_optimized_asm_block(b, subs, {"%s_%d" % (b.block_name, k): list(marker)})
+                e["rebuild_one"].append([i.to_plain() for i in nb.instructions])
+            e["sub_tokens"] = []
+            for sb in impl.gasol_asm.process_blocks_split(subs):
+                try:
+                    sbb = impl.gasol_asm.generate_block_from_plain_instructions(" ".join(sb), "x") if sb else None
+                    e["sub_tokens"].append(vocab.tokens_of_block(sbb) if sbb else "")
+                except Exception as ex:
+                    e["sub_tokens"].append(None)
+        except Exception as ex:
+            e["exception"] = "%s: %s" % (type(ex).__name__, ex)
+        r["blocks"].append(e)
+    return r
+
+
+KINDS.update({"split": t_split})
